@@ -390,9 +390,34 @@ func (r *Run) Rapid(t *testing.T, name string, quickN, thoroughN int, prop func(
 	})
 }
 
+// Survey mode (VERIF_SURVEY=1, development only): failures are tallied by
+// class instead of stopping the search.
+func (r *Run) Survey() bool { return os.Getenv("VERIF_SURVEY") != "" }
+
+var digits = strings.NewReplacer("0", "", "1", "", "2", "", "3", "", "4", "", "5", "", "6", "", "7", "", "8", "", "9", "")
+
 // Violation records a failing case and fails the (rapid) test.
 func (r *Run) Violation(t interface{ Fatalf(string, ...any) }, kind string, c any, format string, a ...any) {
 	msg := fmt.Sprintf(format, a...)
+	if r.Survey() {
+		cls := msg
+		if i := strings.IndexByte(cls, '\n'); i >= 0 {
+			cls = cls[:i]
+		}
+		cls = digits.Replace(cls)
+		if len(cls) > 90 {
+			cls = cls[:90]
+		}
+		r.mu.Lock()
+		r.labels["SURVEY-FAIL:"+cls]++
+		first := r.labels["SURVEY-FAIL:"+cls] == 1
+		r.mu.Unlock()
+		if first {
+			b, _ := json.Marshal(c)
+			r.Note("first %s :: %s :: %s", cls, msg, string(b))
+		}
+		return
+	}
 	r.RecordFailure(kind, c, "", msg)
 	t.Fatalf("%s: %s", kind, msg)
 }
